@@ -709,3 +709,78 @@ func helperSplitSep(pk *packages.Package, fn *types.Func) (string, bool) {
 	}
 	return "", false
 }
+
+// R11ResponseHeaders — the configured response headers are set before an admitted request is answered in any way.
+func R11ResponseHeaders(c *Ctx) {
+	const rule = "R11-response-headers"
+	c.R.Rule(rule, "in HTTP.request the loop that copies h.Config.Response.Headers into the reply (ctx.Header) — inline or in a helper — is entered on every path before parseAgentRequest is called: whatever the agent protocol then answers (task data or the decoy after a parse failure) already carries the configured headers", 1)
+	fn := c.P.Func(PkgHandlers, "HTTP.request")
+	if fn == nil {
+		c.R.Anchor(rule, "handlers.(*HTTP).request")
+		return
+	}
+	setsHeaders := func(f *ssa.Function) ssa.Instruction {
+		for _, l := range naturalLoops(f) {
+			overCfg := false
+			for _, in := range l.header.Instrs {
+				_ = in
+			}
+			sets := false
+			for b := range l.body {
+				for _, in := range b.Instrs {
+					if ci, ok := in.(ssa.CallInstruction); ok && CalleeName(ci) == "(*github.com/gin-gonic/gin.Context).Header" {
+						sets = true
+					}
+					if v, ok := in.(ssa.Value); ok && IsFieldLoad("", "Headers")(v) && DerivesFrom(v, IsFieldLoad("", "Response")) {
+						overCfg = true
+					}
+				}
+			}
+			// the ranged slice is loaded before the loop
+			if sets && !overCfg {
+				for _, b := range f.Blocks {
+					for _, in := range b.Instrs {
+						if v, ok := in.(ssa.Value); ok && IsFieldLoad("", "Headers")(v) && DerivesFrom(v, IsFieldLoad("", "Response")) && b.Dominates(l.header) {
+							overCfg = true
+						}
+					}
+				}
+			}
+			if sets && overCfg {
+				return l.header.Instrs[0]
+			}
+		}
+		return nil
+	}
+	var parse ssa.Instruction
+	var setters []ssa.Instruction
+	if in := setsHeaders(fn); in != nil {
+		setters = append(setters, in)
+	}
+	EachCall(fn, func(call ssa.CallInstruction) {
+		if CalleeName(call) == "Havoc/pkg/handlers.parseAgentRequest" {
+			parse = call.(ssa.Instruction)
+		}
+		if h := call.Common().StaticCallee(); h != nil && h.Blocks != nil && FuncPkgPathOf(h) == PkgHandlers && h != fn {
+			if setsHeaders(h) != nil {
+				setters = append(setters, call.(ssa.Instruction))
+			}
+		}
+	})
+	if parse == nil {
+		c.R.Anchor(rule, "the parseAgentRequest call of HTTP.request")
+		return
+	}
+	construct := "Response.Headers set before parseAgentRequest"
+	ok := false
+	for _, s := range setters {
+		if InstrDominates(s, parse) {
+			ok = true
+		}
+	}
+	if ok {
+		c.R.Ok(rule, FuncShort(fn), construct, c.pos(parse.Pos()), "the header loop is entered before the request reaches the agent protocol", true)
+	} else {
+		c.R.Bad(rule, FuncShort(fn), construct, c.pos(parse.Pos()), "the request is handed to the agent protocol on a path that has not set the configured response headers: the answer to an admitted request (at least the one after a parse failure) goes out without them")
+	}
+}
